@@ -4,6 +4,7 @@ import RTA.Lemmas.TimerSoundExample
 import RTA.Lemmas.ChainSound
 import RTA.Lemmas.ExecRefine
 import RTA.Lemmas.ExecRefineChain
+import RTA.Lemmas.ExecRunMeets
 import RTA.Spec.Ros2Exec
 /-! # C04 — the ECRTS'19 ROS 2 analyses are safe under reservation supply
 
@@ -292,6 +293,51 @@ callback `i` finished within `R` of its release -/
 def ExecMeets (cbs : List Exec.Cb) (chain : ℕ → Option ℕ) (sigma : List Bool) (rels : ℕ → List ℕ)
     (i R : ℕ) : Prop :=
   ∀ o ∈ Exec.run cbs chain sigma rels, o.1 = i → o.2.2 ≤ o.2.1 + R
+
+/-- C04, timer, in terms of the completions that the executable `Exec.run` reports on ANY finite
+prefix of the supply process: every reported completion `(i, release, completion)` of the
+analysed timer satisfies `completion ≤ release + R` (`timer_safe_lts` + `Exec.run_meets_of_sys`) -/
+theorem timer_safe_run (cbs : List Exec.Cb) (sigma : ℕ → Bool) (rels : ℕ → List ℕ) (H i : ℕ)
+    (hi : i < cbs.length) (hti : (cbs.getD i default).isTimer = true)
+    (hidx : ∀ t, ∀ i ∈ rels t, i < cbs.length) (hfin : ∀ t, H ≤ t → rels t = [])
+    (hcb : ∀ c ∈ cbs, 1 ≤ c.cost)
+    (hdist : ∀ k, k < cbs.length → k ≠ i → (cbs.getD k default).isTimer = true →
+      (cbs.getD k default).prio ≠ (cbs.getD i default).prio)
+    (sup : Supply) (hs : sup.WF) (hsbf : ∀ t d, sup.sbf d ≤ service sigma t d)
+    (a : Arr) (C : ℕ) (hwf : a.WF) (hex : a.Exact) (hC : 1 ≤ C)
+    (interf : RB) (hwfi : interf.ArrWF) (hexi : interf.Exact) (B : ℕ)
+    (hN : ∀ t d, countOf (Exec.toSys cbs sigma rels H) i t (t + d) ≤ a.N d)
+    (hcost : ∀ k < (Exec.toSys cbs sigma rels H).n, (Exec.toSys cbs sigma rels H).task k = i →
+      (Exec.toSys cbs sigma rels H).cost k ≤ C)
+    (hhp : ∀ t d, workOf (Exec.toSys cbs sigma rels H)
+      (fun k => (cbs.getD k default).isTimer = true ∧ (cbs.getD k default).prio < (cbs.getD i default).prio)
+      t (t + d) ≤ interf.need d)
+    (hB : ∀ k < (Exec.toSys cbs sigma rels H).n,
+      ¬ Rel (Exec.toSys cbs sigma rels H) i
+        (fun k => (cbs.getD k default).isTimer = true ∧ (cbs.getD k default).prio < (cbs.getD i default).prio) k →
+      (Exec.toSys cbs sigma rels H).cost k ≤ B + 1)
+    (limit R : ℕ) (hR : rosTimer sup (.rbf a (.scalar C)) interf B limit = .ok R) (n : ℕ) :
+    ExecMeets cbs (fun _ => none) ((List.range n).map sigma) rels i R :=
+  Exec.run_meets_of_sys cbs sigma rels H hidx hfin hcb i R
+    (timer_safe_lts cbs sigma rels H i hi hti hidx hfin hcb hdist sup hs hsbf a C hwf hex hC interf hwfi hexi B
+      hN hcost hhp hB limit R hR) n
+
+/-- C04, polling-point callback, in terms of the completions reported by `Exec.run` -/
+theorem polling_point_safe_run (cbs : List Exec.Cb) (sigma : ℕ → Bool) (rels : ℕ → List ℕ) (H i : ℕ)
+    (hidx : ∀ t, ∀ i ∈ rels t, i < cbs.length) (hfin : ∀ t, H ≤ t → rels t = [])
+    (hcb : ∀ c ∈ cbs, 1 ≤ c.cost)
+    (sup : Supply) (hs : sup.WF) (hsbf : ∀ t d, sup.sbf d ≤ service sigma t d)
+    (a : Arr) (C : ℕ) (hwf : a.WF) (hex : a.Exact) (hC : 1 ≤ C)
+    (interf : RB) (hwfi : interf.ArrWF) (hexi : interf.Exact)
+    (hN : ∀ t d, countOf (Exec.toSys cbs sigma rels H) i t (t + d) ≤ a.N d)
+    (hcost : ∀ k < (Exec.toSys cbs sigma rels H).n, (Exec.toSys cbs sigma rels H).task k = i →
+      (Exec.toSys cbs sigma rels H).cost k ≤ C)
+    (hint : ∀ t d, workOf (Exec.toSys cbs sigma rels H) (fun k => k ≠ i) t (t + d) ≤ interf.need d)
+    (limit R : ℕ) (hR : rosPollingPoint sup (.rbf a (.scalar C)) interf limit = .ok R) (n : ℕ) :
+    ExecMeets cbs (fun _ => none) ((List.range n).map sigma) rels i R :=
+  Exec.run_meets_of_sys cbs sigma rels H hidx hfin hcb i R
+    (polling_point_safe_lts cbs sigma rels H i hidx hfin hcb sup hs hsbf a C hwf hex hC interf hwfi hexi
+      hN hcost hint limit R hR) n
 
 /-- the claim for the timer analysis phrased over the executor transition system itself
 in terms of the completions reported by `Exec.run` (an earlier phrasing, kept for reference:
